@@ -165,6 +165,16 @@ pub open spec fn op_sane(op: Operation) -> bool {
     op matches Operation::Assign { dst, src } ==> expr_sane(src)
 }
 
+/// the operation's right-hand side is well sorted (the width rules the Expression constructors enforce)
+pub open spec fn op_wf(op: Operation) -> bool {
+    op matches Operation::Assign { dst, src } ==> expr_wf(src)
+}
+
+/// a numeric offset has the stack pointer's width
+pub open spec fn width_ok(sp: Scalar, a: AOff) -> bool {
+    a matches AOff::Value(b, v) ==> b == sp.bits as nat
+}
+
 pub open spec fn is_assign_to(op: Operation, sp: Scalar) -> bool {
     op matches Operation::Assign { dst, src } && dst == sp
 }
@@ -293,9 +303,8 @@ impl StackPointerOffsetAnalysis {
             ==> (r matches Ok(a2) && abs(a2) is Top),
         // exact value and exact error condition
         /*@spec*/ r matches Ok(a2) ==> handle_abs(self.stack_pointer, *operation, abs(stack_pointer_offset)) == Some(abs(a2)) && io_wf(a2),
-        /*@completes*/ r is Err ==> (handle_abs(self.stack_pointer, *operation, abs(stack_pointer_offset)) is None
-            || (is_assign_to(*operation, self.stack_pointer) && is_transl(self.stack_pointer, assign_src(*operation))
-                && !(expr_wf(assign_src(*operation)) && stack_pointer_offset->Value_0.bits == self.stack_pointer.bits))),
+        /*@completes*/ (op_wf(*operation) && width_ok(self.stack_pointer, abs(stack_pointer_offset)))
+            ==> (r is Err ==> handle_abs(self.stack_pointer, *operation, abs(stack_pointer_offset)) is None),
 //@ enter
     proof {
         lemma_handle_facts(self.stack_pointer, *operation, stack_pointer_offset);
@@ -355,6 +364,13 @@ pub open spec fn fn_sane(f: Function) -> bool {
             ==> op_sane(f.control_flow_graph.blocks_view()[b].instructions@[p].operation)
 }
 
+/// every right-hand side in the function is well sorted (see op_wf)
+pub open spec fn fn_wf(f: Function) -> bool {
+    forall|b: usize, p: int| #![trigger f.control_flow_graph.blocks_view()[b].instructions@[p]]
+        f.control_flow_graph.has_block(b) && 0 <= p < f.control_flow_graph.blocks_view()[b].instructions@.len()
+            ==> op_wf(f.control_flow_graph.blocks_view()[b].instructions@[p].operation)
+}
+
 /// the abstract value the analysis starts from when a location has no incoming information:
 /// a ZERO OF THE STACK POINTER'S WIDTH at the function entry, unknown elsewhere (None: the function has no entry)
 pub open spec fn seed_abs(sp: Scalar, f: Function, l: Loc) -> Option<AOff> {
@@ -384,6 +400,7 @@ pub proof fn lemma_loc_op(x: RefProgramLocation)
         x.function_location matches RefFunctionLocation::Instruction(b, ins) ==> loc_op(*x.function, x.loc()) == Some(ins.operation),
         !(x.function_location is Instruction) ==> loc_op(*x.function, x.loc()) is None,
         fn_sane(*x.function) ==> (x.function_location matches RefFunctionLocation::Instruction(b, ins) ==> op_sane(ins.operation)),
+        fn_wf(*x.function) ==> (x.function_location matches RefFunctionLocation::Instruction(b, ins) ==> op_wf(ins.operation)),
 {
     let f = *x.function;
     match x.function_location {
@@ -426,9 +443,8 @@ impl<'f> StackPointerOffsetAnalysis {
             (r matches Ok(a2) ==> trans_abs(self.stack_pointer, *location.function, location.loc(), Some(AOff::Top)) == Some(abs(a2))),
         /*@spec*/ r matches Ok(a2) ==> trans_abs(self.stack_pointer, *location.function, location.loc(), opt_abs(state)) == Some(abs(a2)) && io_wf(a2),
         /*@no_entry*/ (state is None && entry_loc(*location.function) is None) ==> r is Err,
-        /*@completes*/ r is Err ==> (trans_abs(self.stack_pointer, *location.function, location.loc(), opt_abs(state)) is None
-            || (loc_op(*location.function, location.loc()) matches Some(op) && is_assign_to(op, self.stack_pointer) && is_transl(self.stack_pointer, assign_src(op))
-                && !(expr_wf(assign_src(op)) && (state matches Some(s) ==> s->Value_0.bits == self.stack_pointer.bits)))),
+        /*@completes*/ (fn_wf(*location.function) && width_ok(self.stack_pointer, opt_abs(state).unwrap_or(AOff::Top)))
+            ==> (r is Err ==> trans_abs(self.stack_pointer, *location.function, location.loc(), opt_abs(state)) is None),
 //@ enter
     proof { lemma_loc_op(location); }
 //@ before 0 `if location == function_entry`
